@@ -123,7 +123,7 @@ func shapes(c *vf.Ctx) []Shape {
 		// everything at once
 		out = append(out, Shape{Seed: seed(), Groups: []Group{{Incs: []int{1}}, {FullWALs: 1 + r.IntN(2), Incs: []int{1 + r.IntN(3), 1 + r.IntN(3), 1}}}})
 	}
-	total := c.N(6, 24)
+	total := c.N(6, 20)
 	for len(out) < total {
 		out = append(out, randShape(r, seed()))
 	}
